@@ -563,6 +563,9 @@ class GroupValueWrite(APCI):
         """Serialize to KNX/IP raw data."""
         if isinstance(self.value, DPTBinary):
             return encode_cmd_and_payload(self.CODE, encoded_payload=self.value.value)
+        if not self.value.value:
+            # would be read as a 6 bit value of 0
+            raise ConversionError("DPTArray payload must not be empty.")
 
         return encode_cmd_and_payload(
             self.CODE, appended_payload=bytes(self.value.value)
@@ -602,6 +605,9 @@ class GroupValueResponse(APCI):
         """Serialize to KNX/IP raw data."""
         if isinstance(self.value, DPTBinary):
             return encode_cmd_and_payload(self.CODE, encoded_payload=self.value.value)
+        if not self.value.value:
+            # would be read as a 6 bit value of 0
+            raise ConversionError("DPTArray payload must not be empty.")
         return encode_cmd_and_payload(
             self.CODE, appended_payload=bytes(self.value.value)
         )
